@@ -69,6 +69,9 @@ func run(c *core.Ctx) {
 	for i := 0; i < nK8s; i++ {
 		cases = append(cases, genCase(rng, c.SubSeed("k8s", i), "k8s", i))
 	}
+	for j, n := 0, c.N(9, 60); j < n; j++ {
+		cases = append(cases, genHugeCase(rng, c.SubSeed("k8s-huge", j), j))
+	}
 
 	var mu sync.Mutex
 	raceKeys := map[string]int{}
@@ -240,7 +243,7 @@ func run(c *core.Ctx) {
 	// a run that did not observe the behaviours it is about decides nothing
 	need := []string{"runs_joined", "runs_single", "lines_collapsed", "pass_not_joined", "pass_missing_field", "timeout_splits",
 		"run_end_by_start", "run_end_by_other", "run_end_by_missing", "limit_truncated_runs", "pre_discarded",
-		"k8s_split_by_size", "tpl_values_classified", "pauses_done"}
+		"k8s_split_by_size", "tpl_values_classified", "pauses_done", "k8s_huge_lines_joined", "k8s_lines_joined_after_huge"}
 	for _, k := range need {
 		if c.Counter(k) == 0 {
 			c.Fatal("expected behaviour class %q was never observed", k)
